@@ -1,4 +1,4 @@
-CONSTANTS NodeId = 5  HbInit = 2  Walk = FALSE  WalkLen = 0  EvCap = 3
+CONSTANTS NodeId = 5  HbInit = 2  Walk = FALSE  WalkLen = 0  EvCap = 3  PoolN = 16
 CONSTANT Letters <- L09  HcInit <- HC09  ProbeLetters <- P09
 INIT Init
 NEXT Next
